@@ -12,6 +12,13 @@ let c07 (toks : string list) : string =
     match toks with
     | [] -> List.rev acc
     | "S" :: k :: m :: r -> let (t', _) = tm_step t (TSet (parse_l k, parse_l m)) in go t' r (("- " ^ c07_state t') :: acc)
+    | "N" :: c :: k :: m :: r ->
+      (* the same set repeated: count given as L<n> *)
+      let n = int_of_string (String.sub c 1 (String.length c - 1)) in
+      let op = TSet (parse_l k, parse_l m) in
+      let t' = ref t in
+      for _ = 1 to n do t' := fst (tm_step !t' op) done;
+      go !t' r (("- " ^ c07_state !t') :: acc)
     | "D" :: k :: r -> let (t', _) = tm_step t (TDel (parse_l k)) in go t' r (("- " ^ c07_state t') :: acc)
     | "T" :: s :: r -> let (t', _) = tm_step t (TTitle (parse_l s)) in go t' r (("- " ^ c07_state t') :: acc)
     | "H" :: k :: r ->
